@@ -114,6 +114,49 @@ def _independent_mismatch(th, h, grid):
     return out
 
 
+def _manager_strong(rep: C.Report, tier: str):
+    """The LTE velocity as WallGoManager delivers it (its own Hydrodynamics object, built from ITS configuration) for strong transitions, where the
+    plasma in front of the wall is heated by more than 20 %: it must be the LTE velocity of a Hydrodynamics object built with the configured
+    hydrodynamics settings (which the main loop judges against the conservation laws)."""
+    import logging
+    import WallGo
+    import models
+    from WallGo.hydrodynamics import Hydrodynamics
+    pts = [(0.5, 0.5), (0.7, 0.5), (0.4, 0.8), (0.5861152296785911, 0.5906026662043081)] + ([(0.3, 0.6), (0.6, 0.55), (0.8, 0.5), (0.9, 0.8)] if tier == "thorough" else [])
+    for psi_, tf_ in pts:
+        th = models.BagEOS(ap=3.0, am=3.0 * psi_, eps=1.0 - psi_, Tn=tf_)
+        m = WallGo.WallGoManager()
+        m.setVerbosity(logging.ERROR)
+        cfg = m.config.configHydrodynamics
+        try:
+            ref = Hydrodynamics(th, cfg.tmax, cfg.tmin, cfg.relativeTol, cfg.absoluteTol)
+            want = float(ref.findvwLTE())
+        except Exception as ex:  # noqa: BLE001
+            rep.count("manager-strong reference raised " + type(ex).__name__)
+            continue
+        rep.case(key=("manager-strong", psi_, tf_))
+        rep.count("manager LTE, strong transitions")
+        info = {"eos": f"bag psi={psi_}, Tn/Tc={tf_}, alpha_n={float(th.alpha(tf_)):.3f}", "configured(tmax,tmin,rtol,atol)": [cfg.tmax, cfg.tmin, cfg.relativeTol, cfg.absoluteTol],
+                "LTE_velocity_with_configured_settings": want,
+                "how": "m = WallGoManager(); m.thermodynamics = eos; m._initHydrodynamics(eos); m.wallSpeedLTE()"}
+        try:
+            m.thermodynamics = th
+            m._initHydrodynamics(th)      # pylint: disable=protected-access
+            got = float(m.wallSpeedLTE())
+        except AttributeError:
+            rep.count("manager-strong: private entry point not available")
+            continue
+        except Exception as ex:  # noqa: BLE001
+            rep.violation("WallGoManager.wallSpeedLTE() raises for a strong transition for which the configured hydrodynamics settings give an LTE velocity",
+                          dict(info, error=f"{type(ex).__name__}: {str(ex)[:200]}"), finding_key="C05:manager-strong")
+            continue
+        if abs(got - want) > 1e-6:
+            hy = m.hydrodynamics
+            rep.violation("WallGoManager.wallSpeedLTE() differs from the LTE velocity obtained with the configured hydrodynamics settings",
+                          dict(info, wallSpeedLTE=got, window_used=[float(hy.TMinHydro / hy.Tnucl), float(hy.TMaxHydro / hy.Tnucl)]),
+                          finding_key="C05:manager-strong")
+
+
 def search(rep: C.Report, tier: str, broken):
     import models
     r = C.rng("C05")
@@ -141,6 +184,7 @@ def search(rep: C.Report, tier: str, broken):
         fams.append((f"bag-small-units:psi={psi_},Tn/Tc={tfrac_},Tc={Tc_}",
                      models.BagEOS(ap=3.0, am=3.0 * psi_, eps=(1.0 - psi_) * Tc_ ** 4, Tn=tfrac_ * Tc_)))
     _manager_scan(rep, tier)
+    _manager_strong(rep, tier)
     for name, th in fams:
         try:
             h = HC.make_hydro(th)
